@@ -176,6 +176,8 @@ impl<CS: CipherSuite> State<CS> {
 
     /// Load the current `read_off` from `shm`.
     fn read_off(&self, shm: &SharedMem<CS>) -> Result<Offset, Corrupted> {
+        #[cfg(aranya_verif)]
+        crate::verif::point(crate::verif::site::SHM_READ_OFF_LOAD, shm.read_off.as_ptr() as usize, 0);
         let off = shm.read_off.load(Ordering::SeqCst);
         if unlikely!(!self.valid_offset(off)) {
             Err(corrupted("invalid read offset"))
@@ -186,6 +188,8 @@ impl<CS: CipherSuite> State<CS> {
 
     /// Load the current `write_off` from `shm`.
     pub(super) fn write_off(&self, shm: &SharedMem<CS>) -> Result<Offset, Corrupted> {
+        #[cfg(aranya_verif)]
+        crate::verif::point(crate::verif::site::SHM_WRITE_OFF_LOAD, shm.write_off.as_ptr() as usize, 0);
         let off = shm.write_off.load(Ordering::SeqCst);
         if unlikely!(!self.valid_offset(off)) {
             Err(corrupted("invalid write offset"))
@@ -200,6 +204,8 @@ impl<CS: CipherSuite> State<CS> {
         shm: &SharedMem<CS>,
         write_off: Offset,
     ) -> Result<Offset, Corrupted> {
+        #[cfg(aranya_verif)]
+        crate::verif::point(crate::verif::site::SHM_OFF_SWAP, shm.read_off.as_ptr() as usize, 0);
         let off = shm.read_off.swap(write_off.into(), Ordering::SeqCst);
         if unlikely!(!self.valid_offset(off)) {
             Err(corrupted("invalid write offset"))
@@ -827,6 +833,8 @@ impl<CS: CipherSuite> ChanListData<CS> {
     /// Truncates the list.
     pub fn clear(&mut self) {
         self.len = U64::new(0);
+        #[cfg(aranya_verif)]
+        crate::verif::point(crate::verif::site::SHM_GEN_BUMP, self.generation.as_ptr() as usize, 0);
         self.generation.fetch_add(1, Ordering::AcqRel);
     }
 
@@ -916,6 +924,8 @@ impl<CS: CipherSuite> ChanListData<CS> {
             if !updated {
                 // As a precaution, update the generation before
                 // we actually delete anything.
+                #[cfg(aranya_verif)]
+                crate::verif::point(crate::verif::site::SHM_GEN_BUMP, self.generation.as_ptr() as usize, 0);
                 let generation = self.generation.fetch_add(1, Ordering::AcqRel);
                 debug!("side generation={}", generation + 1);
 
@@ -1061,6 +1071,50 @@ impl<CS: CipherSuite> ChanListData<CS> {
         self.check();
 
         Ok(self.chans_mut()?.iter_mut())
+    }
+}
+
+
+#[cfg(aranya_verif)]
+impl<CS: CipherSuite> State<CS> {
+    /// Takes an unsynchronized snapshot of the shared memory for
+    /// verification.
+    pub(super) fn verif_snapshot(&self) -> crate::verif::ShmSnapshot {
+        use crate::verif::{ShmSideSnapshot, ShmSnapshot, SNAPSHOT_MAX_CHANS};
+
+        let shm = self.shm();
+        let side = |off: usize| -> ShmSideSnapshot {
+            let mut snap = ShmSideSnapshot::default();
+            if let Ok(mutex) = shm.side(Offset(off)) {
+                snap.lock_addr = ptr::from_ref(mutex) as usize;
+                // SAFETY: the first word of the mutex is its
+                // `AtomicU32` key.
+                snap.lock = unsafe { (*ptr::from_ref(mutex).cast::<AtomicU32>()).load(Ordering::SeqCst) };
+                // SAFETY: verification only; the scheduler
+                // serializes all threads.
+                let data = unsafe { mutex.inner_unsynchronized() };
+                snap.generation_addr = data.generation.as_ptr() as usize;
+                snap.generation = data.generation.load(Ordering::SeqCst);
+                snap.len = data.len.into();
+                snap.cap = data.cap.into();
+                if let Ok(chans) = data.chans() {
+                    for (dst, chan) in snap.ids.iter_mut().zip(chans.iter()) {
+                        *dst = chan.local_channel_id.into();
+                    }
+                    snap.ids_len = chans.len().min(SNAPSHOT_MAX_CHANS);
+                }
+            }
+            snap
+        };
+        ShmSnapshot {
+            read_is_a: shm.read_off.load(Ordering::SeqCst) == self.side_a,
+            write_is_a: shm.write_off.load(Ordering::SeqCst) == self.side_a,
+            read_off_valid: self.valid_offset(shm.read_off.load(Ordering::SeqCst)),
+            write_off_valid: self.valid_offset(shm.write_off.load(Ordering::SeqCst)),
+            next_chan_id: shm.next_chan_id.load(Ordering::SeqCst),
+            side_a: side(self.side_a),
+            side_b: side(self.side_b),
+        }
     }
 }
 
